@@ -778,6 +778,14 @@ theorem gen_route_guard_matches_model :
       [(true, chainMounted activeGuard .proxy), (true, chainMounted activeGuard .proxy), (true, chainMounted activeGuard .proxy),
        (true, chainMounted activeGuard .translator), (true, chainMounted activeGuard .internal)] := by decide
 
+/-- The glue in front of `GetClientIP`: for every file list / environment override pair probed through the real
+    `config.Load`, the networks the rate limiter consults are exactly the textual list of the loaded
+    configuration, and that list is the override when one is set and the file's list otherwise. (A finite table,
+    regenerated on every run: a tie, not a theorem about all configurations.) -/
+theorem gen_trusted_proxies_consistent :
+    Olla.Gen.Security.trustedProxies.all (fun r =>
+      r.2.2.2 == r.2.2.1 && r.2.2.1 == (if r.2.1.isEmpty then r.1 else r.2.1)) = true := by decide
+
 /-! ### Non-vacuity -/
 
 example : (run 6 2 (full 2 0) [0, 1, 2, 3]).map (·.admitted) = [true, true, false, false] := by decide
